@@ -103,7 +103,8 @@ def facts_dir(repo=None, release=False):
     if os.path.exists(marker):
         return d
     os.makedirs(os.path.join(CACHE, 'facts'), exist_ok=True)
-    lockf = open(os.path.join(CACHE, 'facts.lock'), 'w')
+    # the lock serialises cargo on one target directory: a worker with its own target has its own lock
+    lockf = open(TARGET.rstrip('/') + '.lock' if 'VERIF_TARGET' in os.environ else os.path.join(CACHE, 'facts.lock'), 'w')
     fcntl.flock(lockf, fcntl.LOCK_EX)
     try:
         if os.path.exists(marker):
@@ -123,7 +124,7 @@ def facts_dir(repo=None, release=False):
         lockf.close()
 
 
-def _gc(keep, max_dirs=6):
+def _gc(keep, max_dirs=16):
     root = os.path.join(CACHE, 'facts')
     ds = [os.path.join(root, x) for x in os.listdir(root) if os.path.isdir(os.path.join(root, x))]
     ds.sort(key=lambda p: os.path.getmtime(p))
